@@ -186,12 +186,32 @@ func init() {
 					},
 				}, Sink: core.AnyReturn(), Need: []Fact{"block-txs-removed", "expired-removed"}, Min: 1}.Check(r)
 				// RemoveTxsOfBlock covers every tx of the block
+				goneCalls := []core.CallGuard{called("tx-gone", mpc+"Remove"), isFalse("tx-gone", mpc+"Exist")}
+				if f := r.W.Func(mpm + "RemoveTxsOfBlock"); f != nil {
+					// an extracted "remove if present" helper stands for the fact when all its paths establish it
+					for _, h := range core.HelpersEstablishing(f, &core.FlowSpec{Calls: goneCalls}, "tx-gone") {
+						goneCalls = append(goneCalls, called("tx-gone", h))
+					}
+				}
 				core.Dominated{Fn: mpm + "RemoveTxsOfBlock", Spec: &core.FlowSpec{
-					Calls:   []core.CallGuard{called("tx-gone", mpc+"Remove"), isFalse("tx-gone", mpc+"Exist")},
+					Calls:   goneCalls,
 					Foralls: []core.ForallGuard{{Fact: "all-block-txs-gone", Inner: "tx-gone", Loop: core.RangesOver(core.Mentions("types.Block.Txs"))}},
 				}, Sink: core.AnyReturn(), Need: []Fact{"all-block-txs-gone"}, Min: 1}.Check(r)
-				core.CallArgs{Fn: mpm + "RemoveTxsOfBlock", Callee: []string{mpc + "Remove", mpc + "Exist"}, What: "keyed by the transaction's Hash()",
-					Args: map[int]core.ExprPred{0: core.DerivedFromCall("types.(*Transaction).Hash")}, Min: 2}.Check(r)
+				var goneHelpers []string
+				if f := r.W.Func(mpm + "RemoveTxsOfBlock"); f != nil {
+					goneHelpers = core.HelpersEstablishing(f, &core.FlowSpec{Calls: []core.CallGuard{called("tx-gone", mpc+"Remove"), isFalse("tx-gone", mpc+"Exist")}}, "tx-gone")
+				}
+				if len(goneHelpers) == 0 {
+					core.CallArgs{Fn: mpm + "RemoveTxsOfBlock", Callee: []string{mpc + "Remove", mpc + "Exist"}, What: "keyed by the transaction's Hash()",
+						Args: map[int]core.ExprPred{0: core.DerivedFromCall("types.(*Transaction).Hash")}, Min: 2}.Check(r)
+				} else {
+					// the removal was extracted: the helper is handed the transaction's hash and keys both calls by it
+					core.CallArgs{Fn: mpm + "RemoveTxsOfBlock", Callee: goneHelpers, What: "keyed by the transaction's Hash()",
+						Args: map[int]core.ExprPred{0: core.DerivedFromCall("types.(*Transaction).Hash")}, Min: 1}.Check(r)
+					for _, h := range goneHelpers {
+						core.CallArgs{Fn: h, Callee: []string{mpc + "Remove", mpc + "Exist"}, What: "keyed by the hash it was handed", Args: map[int]core.ExprPred{0: core.IsObj("param:0")}, Min: 2}.Check(r)
+					}
+				}
 			}),
 		},
 	})
@@ -531,8 +551,21 @@ func init() {
 					Calls: []core.CallGuard{isFalse("not-expired", "types.(*Transaction).IsExpire")},
 					Conds: []core.CondGuard{core.RelGuard("age-fresh", core.Mentions(mp+"Item.EnterTime"), token.LSS, core.IsObj(mp+"mempoolExpiredInterval"))},
 				}, Sink: core.SinkPred{Label: "return other than true", Match: func(fl *core.Flow, n *core.GNode) bool {
+					if n.Kind != core.KReturn || core.ClassifyReturn(fl, n, -1) == core.True {
+						return false
+					}
+					// `return tx.IsExpire(…)` hands on the last test's own verdict: it says "not expired" exactly when
+					// IsExpire does, so only the pool-age half remains to be shown for it (below)
+					if rs, ok := n.Ast.(*ast.ReturnStmt); ok && len(rs.Results) == 1 && core.CallAtom([]string{"types.(*Transaction).IsExpire"})(fl.C, rs.Results[0]) {
+						return false
+					}
+					return true
+				}}, Need: []Fact{"age-fresh", "not-expired"}, Min: 0}.Check(r)
+				core.Dominated{Fn: mp + "isExpired", Spec: &core.FlowSpec{
+					Conds: []core.CondGuard{core.RelGuard("age-fresh", core.Mentions(mp+"Item.EnterTime"), token.LSS, core.IsObj(mp+"mempoolExpiredInterval"))},
+				}, Sink: core.SinkPred{Label: "return that can say 'not expired'", Match: func(fl *core.Flow, n *core.GNode) bool {
 					return n.Kind == core.KReturn && core.ClassifyReturn(fl, n, -1) != core.True
-				}}, Need: []Fact{"age-fresh", "not-expired"}, Min: 1}.Check(r)
+				}}, Need: []Fact{"age-fresh"}, Min: 1}.Check(r)
 			}),
 		},
 	})
